@@ -59,7 +59,7 @@ Proof. induction a as [|c a IH]; cbn; [reflexivity|]. rewrite Ascii.eqb_refl. ex
 
 (* Holder::build on a bound SD-JWT without key binding parameters is an error *)
 Theorem build_bound_requires_kb O E h cseg a c claims :
-  jwt_parts_m (h_jwt h) = Val (a, cseg, c) -> o_claims O cseg = Ok claims -> jhas "cnf" claims = true ->
+  jwt_parts_m (h_jwt h) = Val (a, cseg, c) -> o_claims O cseg = Ok claims -> kb_bound claims = true ->
   h_kb h = None -> holder_build O E h = Fail.
 Proof.
   intros Hj Hc Hb Hk. unfold holder_build. rewrite Hj. cbn [obind]. rewrite Hc. cbn [of_res obind]. rewrite Hb, Hk. reflexivity.
